@@ -24,7 +24,7 @@ from ..runner import Failure, Result, pmap, seeded_order
 
 PROP = "C19"
 LIMIT = 64
-CLIENT_STREAM_LIMIT = 40  # production: 64 KiB stream buffer vs MAX_INPUT_SIZE 10 MiB -- the buffer limit is the smaller one
+CLIENT_STREAM_LIMIT = 12  # production: 64 KiB stream buffer vs MAX_INPUT_SIZE 10 MiB -- the buffer is far smaller (here 12 vs 64: a long line comes in more than five pieces)
 
 # item = list of parts; part = ("line", bytes) | ("lit", bytes, sync)
 ITEMS = {
@@ -235,6 +235,11 @@ def work(unit):
             for cuts in segs:
                 if cuts:
                     cases.append({k: cuts})
+        # one more segmentation per stretch: it trickles in, in pieces shorter than the connection's stream buffer (a reader behind
+        # flow control never has more than about one buffer's worth to look at)
+        for k, (data, _w) in enumerate(script):
+            if len(data) > CLIENT_STREAM_LIMIT:
+                cases.append({k: tuple(range(CLIENT_STREAM_LIMIT - 2, len(data), CLIENT_STREAM_LIMIT - 2))})
         for cuts in cases:
             res = run_stream(items, cuts)
             n += 1
